@@ -97,3 +97,10 @@ impl Deque {
         }
     }
 }
+
+#[cfg(feature = "verif")]
+impl<T> Buffer<T> {
+    pub(super) fn verif_len(&self) -> usize {
+        self.slab.len()
+    }
+}
